@@ -474,6 +474,25 @@ def extract_encoder(repo: Repo, rel="cell.py", qual="Cell._to_buffer") -> Encode
             if info and info[0] == "zeros":
                 enc.storage_var = s.targets[0].id
                 enc.header["alloc"] = (s, info[1])
+    # roles: payload variable (first ``storage += <name>``), type variable (``storage[1] = <name>``),
+    # flags variable (``storage[8:12] = pack(fmt, <name>)``), length variable (``return storage[0:<name>]``)
+    payload_var, type_var = "value", "cell_type"
+    for s_ in func.body:
+        if isinstance(s_, ast.AugAssign) and U(s_.target) == enc.storage_var and isinstance(s_.op, ast.Add) and isinstance(s_.value, ast.Name):
+            payload_var = s_.value.id
+            break
+    for s_ in func.body:
+        if isinstance(s_, ast.Assign) and isinstance(s_.targets[0], ast.Subscript) and U(s_.targets[0].value) == enc.storage_var:
+            sub = s_.targets[0]
+            if not isinstance(sub.slice, ast.Slice) and try_const(sub.slice, env) == 1 and isinstance(s_.value, ast.Name):
+                type_var = s_.value.id
+            if isinstance(sub.slice, ast.Slice) and try_const(sub.slice.lower, env) == 8 and isinstance(s_.value, ast.Call) and len(s_.value.args) == 2 and isinstance(s_.value.args[1], ast.Name):
+                enc.flags_var = s_.value.args[1].id
+        if isinstance(s_, ast.Return) and isinstance(s_.value, ast.Subscript) and isinstance(s_.value.slice, ast.Slice) and isinstance(s_.value.slice.upper, ast.Name):
+            if U(s_.value.value) == enc.storage_var:
+                enc.length_var = s_.value.slice.upper.id
+    enc.header["__payload_var__"] = payload_var
+    enc.header["__type_var__"] = type_var
     # kind chain: the if/elif over isinstance(self, X)
     chain = None
     for s in func.body:
@@ -496,9 +515,12 @@ def extract_encoder(repo: Repo, rel="cell.py", qual="Cell._to_buffer") -> Encode
                 tg = U(b.targets[0])
                 if tg == enc.flags_var:
                     kb.flags = try_const(b.value, env)
-                elif tg == "cell_type":
-                    kb.type_expr = U(b.value)
-                elif tg == "value":
+                elif tg == type_var:
+                    if isinstance(b.value, ast.IfExp):
+                        kb.type_expr = U(b.value.body) + "|" + U(b.value.orelse)
+                    else:
+                        kb.type_expr = U(b.value)
+                elif tg == payload_var:
                     info = _pack_info(b.value, env)
                     kb.value_expr = b.value
                     if info:
@@ -510,7 +532,7 @@ def extract_encoder(repo: Repo, rel="cell.py", qual="Cell._to_buffer") -> Encode
                 kb.returns_none = True
             elif isinstance(b, ast.If):
                 # nested choice of cell_type (currency vs number)
-                types = [U(x.value) for x in ast.walk(b) if isinstance(x, ast.Assign) and U(x.targets[0]) == "cell_type"]
+                types = [U(x.value) for x in ast.walk(b) if isinstance(x, ast.Assign) and U(x.targets[0]) == type_var]
                 if types:
                     kb.type_expr = "|".join(types)
         enc.kinds.append(kb)
@@ -536,7 +558,7 @@ def extract_encoder(repo: Repo, rel="cell.py", qual="Cell._to_buffer") -> Encode
                     idx = try_const(sub.slice, env)
                     enc.header[f"[{idx}]"] = (s, None, U(s.value))
         if isinstance(s, ast.AugAssign) and U(s.target) == enc.storage_var and isinstance(s.op, ast.Add):
-            if U(s.value) == "value":
+            if U(s.value) == payload_var:
                 enc.header["payload"] = (s, None, "value")
         if isinstance(s, ast.If):
             t = s.test
